@@ -247,9 +247,22 @@ func (in *inst) do(req string) string {
 	case "cf":
 		var sigs []types.SignData
 		for _, s := range strings.Split(f[2], ",") {
+			// "1": deputy 1's confirm; "f1": a second valid signature of deputy 1 over the same hash (another nonce);
+			// "r1": the other encoding (r, n-s, v^1) of deputy 1's confirm
 			var d int
-			fmt.Sscanf(s, "%d", &d)
-			sigs = append(sigs, node.SignConfirm(node.Deputy(d), w.hash[f[1]]))
+			h := w.hash[f[1]]
+			switch s[0] {
+			case 'f':
+				fmt.Sscanf(s[1:], "%d", &d)
+				sigs = append(sigs, types.BytesToSignData(node.SignWithNonce(node.Deputy(d), h[:], 7)))
+			case 'r':
+				fmt.Sscanf(s[1:], "%d", &d)
+				c := node.SignConfirm(node.Deputy(d), h)
+				sigs = append(sigs, types.BytesToSignData(node.ReencodeSig(c[:])))
+			default:
+				fmt.Sscanf(s, "%d", &d)
+				sigs = append(sigs, node.SignConfirm(node.Deputy(d), h))
+			}
 		}
 		if err := in.dp.InsertConfirms(w.height[f[1]], w.hash[f[1]], sigs); err != nil {
 			return err.Error()
